@@ -375,9 +375,18 @@ func (s *state) walkChild(node parse.Node) error {
 		}
 	case *parse.UseNode:
 		return s.walkUseNode(node)
+	case *parse.MacroNode:
+		s.localMacros[node.Name] = node
+	case *parse.ImportNode:
+		return s.walkImportNode(node)
+	case *parse.FromNode:
+		return s.walkFromNode(node)
+	case *parse.SetNode:
+		return s.walkSetNode(node)
 	default:
-		// No need to handle other nodes. This function only populates blocks from a
-		// referenced template (in a use statement) and does not actually execute anything.
+		// No need to handle other nodes. Apart from the statements above, which define
+		// what the blocks of the child template refer to (blocks from a use statement,
+		// macros, imports and variables), nothing outside of its blocks is executed.
 	}
 	return nil
 }
